@@ -942,6 +942,279 @@ Proof.
   intros f fs evs s' outs Hev Hrun Hd x Hx Hf. apply run_spec in Hrun; auto; [|apply Inv_init].
   destruct Hrun as (_ & _ & A3 & _). destruct (A3 x Hx Hf). congruence.
 Qed.
+
+(* ---------- the image is a prefix of the HTTP body, whatever the segmentation ---------- *)
+Lemma DInv_len s : DInv B s -> len (accepted s) = downloaded s.
+Proof.
+  intros (D1 & D2 & D3 & D4 & D5 & D6 & D7). rewrite <- D7, len_app, fread_len by lia. lia.
+Qed.
+
+Lemma download_accepted s content s' o ok :
+  download FIXED s content = (s', o, ok) ->
+  DInv B s -> downloaded s < expected s -> bytes_ok content ->
+  (ok = true \/ downloaded s' = expected s') ->
+  accepted s' = accepted s ++ take (Z.max 0 (expected s - downloaded s)) content /\ len (accepted s') = downloaded s'.
+Proof.
+  pose proof (cf_sec CF) as Hsec. intros H HD Hlt Hbc Hc. pose proof (DInv_len _ HD) as Hla. revert H HD.
+  unfold download. cbn [fx_clamp FIXED].
+  set (s0 := mkst (started s) (halted s) (fl s) (fails s) (awo s) (rhdr s) (matched s) (hlen s) (expected s) (downloaded s)
+                  (downloading s) (buf s) false (got s)).
+  set (c := take (Z.max 0 (expected s - downloaded s)) content).
+  intros H (D1 & D2 & D3 & D4 & D5 & D6 & D7).
+  assert (len c <= expected s - downloaded s) as Hlc by (unfold c; rewrite len_take by lia; lia).
+  destruct (dl_loop (S (length c)) s0 c) as [[s1 o1] ok1] eqn:El.
+  assert (bytes_ok c) as Hbc' by (unfold c; apply bytes_ok_take; auto).
+  pose proof (dl_loop_spec B (expected s) _ _ _ _ _ _ El (Nat.lt_succ_diag_r _) Hbc' D4 (D6 Hlt) D5 D3 D2 (proj1 D1) ltac:(cbn [s0 downloaded]; lia) D7) as K.
+  clear El. rename K into El.
+  assert (accepted s0 = accepted s) as Hacc0 by reflexivity. rewrite Hacc0 in El. clear Hacc0. unfold s0 in El.
+  cbn [started rhdr matched expected downloading halted bufnull hlen downloaded] in El.
+  destruct El as (K1 & K2 & K3 & K4 & K5 & ops1 & tail1 & -> & Hops1 & Hrest).
+  destruct ok1.
+  - destruct Hrest as (-> & M1 & M2 & M2' & M3 & M4 & M5 & M6 & M7 & M8 & M9 & M10).
+    assert (len (accepted s1) = downloaded s1) as Hl1 by (rewrite M10, len_app, M8; lia).
+    destruct ((0 <? len (buf s1)) && (downloaded s1 =? expected s1)) eqn:Efin.
+    + destruct (flash_write s1) as [[s2 o2] ok2] eqn:Efw.
+      assert (s' = s2) as -> by congruence.
+      assert (got s2 = got s1 /\ downloaded s2 = downloaded s1) as [G1 G2].
+      { revert Efw. unfold flash_write. destruct (attempts _ _ _ _ _) as [[[f' fs'] oo] okk]. destruct okk; intros X;
+          match type of X with (?a, _, _) = _ => assert (s2 = a) as -> by congruence end; cbn; auto. }
+      unfold accepted. rewrite G1, G2. fold (accepted s1). split; [exact M10|exact Hl1].
+    + assert (s' = s1) as -> by congruence. split; [exact M10|exact Hl1].
+  - destruct Hrest as (-> & M1 & M2 & M3).
+    assert (s' = s1 /\ ok = false) as (-> & ->) by (split; congruence).
+    destruct Hc as [Hc|Hc]; [discriminate|]. lia.
+Qed.
+
+Lemma recv_body_accepted s1 content s4 o :
+  recv_body FIXED map_ userbin verify s1 content = (s4, o) ->
+  DInv B s1 -> downloaded s1 < expected s1 -> bytes_ok content ->
+  (halted s4 = false \/ downloaded s4 = expected s4) -> halted s1 = false ->
+  accepted s4 = accepted s1 ++ take (Z.max 0 (expected s1 - downloaded s1)) content /\ len (accepted s4) = downloaded s4.
+Proof.
+  unfold recv_body. intros H HD Hlt Hbc Hc Hh1.
+  destruct (download FIXED s1 content) as [[s2 o2] ok] eqn:Ed.
+  pose proof (download_spec B _ _ _ _ _ Ed HD Hlt Hbc) as (K1 & K2 & K3 & K4 & K5 & ops & tail & _ & _ & Hrest).
+  assert (accepted (reset_hlen s2) = accepted s2 /\ downloaded (reset_hlen s2) = downloaded s2 /\ expected (reset_hlen s2) = expected s2
+          /\ halted (reset_hlen s2) = halted s2) as (R1 & R2 & R3 & R4) by (cbn; auto).
+  assert (accepted s4 = accepted s2 /\ downloaded s4 = downloaded s2 /\ expected s4 = expected s2 /\ (halted s4 = false -> halted s2 = false)) as (A1 & A2 & A3 & A4).
+  { destruct (downloaded (reset_hlen s2) =? expected (reset_hlen s2)).
+    - destruct (verify_and_reboot map_ userbin verify (reset_hlen s2)) as [s5 o3] eqn:Ev.
+      assert (s4 = s5) as -> by congruence.
+      assert (s5 = halt (reset_hlen s2)) as ->.
+      { revert Ev. unfold verify_and_reboot. destruct (footer_ok _); [destruct (bufnull _)|]; unfold reboot; intros X; congruence. }
+      cbn. repeat split; auto. intros; discriminate.
+    - assert (s4 = reset_hlen s2) as -> by congruence. cbn. repeat split; auto. }
+  rewrite A1, A2. apply (download_accepted _ _ _ _ _ Ed); auto.
+  destruct ok; [left; reflexivity|]. destruct Hrest as (_ & G1 & _).
+  destruct Hc as [Hc|Hc]; [rewrite (A4 Hc) in G1; discriminate|]. right. congruence.
+Qed.
+
+Lemma scan_spec : forall seg rh off rh' m off',
+  scan rh seg off = (rh', m, off') ->
+  off <= off' <= off + len seg /\ rev rh' = rev rh ++ take (off' - off) seg /\ (m = 0 -> off' = off + len seg).
+Proof.
+  induction seg as [|b rest IH]; intros rh off rh' m off' H; cbn [scan] in H.
+  - assert (rh' = rh /\ m = 0 /\ off' = off) as (-> & -> & ->) by (repeat split; congruence).
+    rewrite Z.sub_diag. change (take 0 (@nil Z)) with (@nil Z). change (len (@nil Z)) with 0. rewrite app_nil_r. repeat split; lia.
+  - pose proof (len_nonneg rest). rewrite len_cons.
+    destruct (MAX_HEADER - 1 <=? len rh).
+    { assert (rh' = rh /\ m = -1 /\ off' = off) as (-> & -> & ->) by (repeat split; congruence).
+      rewrite Z.sub_diag. change (take 0 (b :: rest)) with (@nil Z). rewrite app_nil_r. repeat split; try lia. }
+    destruct (ends_header (b :: rh)).
+    + assert (rh' = b :: rh /\ m = 1 /\ off' = off + 1) as (-> & -> & ->) by (repeat split; congruence).
+      replace (off + 1 - off) with 1 by lia. change (take 1 (b :: rest)) with [b]. cbn [rev]. repeat split; try lia.
+    + apply IH in H. destruct H as (H1 & H2 & H3). split; [lia|]. split; [|intros; rewrite H3 by auto; lia].
+      rewrite H2. cbn [rev]. rewrite <- app_assoc. f_equal.
+      unfold take. replace (Z.to_nat (off' - off)) with (S (Z.to_nat (off' - (off + 1)))) by lia. reflexivity.
+Qed.
+
+Lemma take_app_ge {A} n (a b : list A) : len a <= n -> take n (a ++ b) = a ++ take (n - len a) b.
+Proof.
+  intros. unfold take, len in *. rewrite firstn_app. rewrite firstn_all2 by lia. f_equal. f_equal. lia.
+Qed.
+
+Definition SR (s : st) (c : list Z) : Prop :=
+  (halted s = false -> matched s = 0 -> rev (rhdr s) = c) /\
+  (downloading s = true -> (halted s = false \/ downloaded s = expected s) ->
+     exists body, c = rev (rhdr s) ++ body /\ accepted s = take (expected s) body /\ len (accepted s) = downloaded s).
+
+Lemma seg_step_SR s b s1 o c :
+  step FIXED map_ userbin heap verify s (Seg b) = (s1, o) ->
+  Inv s -> started s = true -> SR s c -> bytes_ok b ->
+  SR s1 (c ++ (if eff b then b else [])).
+Proof.
+  intros H HI Hst (S1 & S2) Hb. pose proof HI as (I1 & I2 & I3 & I4).
+  unfold step in H. destruct (halted s) eqn:Hh.
+  - (* already decided *)
+    assert (s1 = s) as -> by congruence. split; [intros; congruence|].
+    intros Hd [X|He]; [congruence|]. destruct (S2 Hd (or_intror He)) as (body & -> & Ha & Hl).
+    exists (body ++ (if eff b then b else [])). rewrite app_assoc. split; [reflexivity|]. split; [|auto].
+    rewrite Ha. symmetry. apply take_app_le.
+    rewrite Ha in Hl. destruct (I1 Hd) as (_ & _ & l & _ & Hel & _).
+    rewrite len_take in Hl by lia. lia.
+  - rewrite Hst in H. unfold recv in H. unfold eff.
+    destruct ((len b =? 0) || (65535 <? len b)).
+    { assert (s1 = s) as -> by congruence. cbn [negb]. rewrite app_nil_r. split; auto. }
+    cbn [negb fx_offset FIXED] in H |- *.
+    destruct (I2 Hst) as [bb Hslot].
+    assert (B = bb) as HB by (unfold base; rewrite Hslot; reflexivity).
+    destruct (slot_base_aligned _ _ _ Hslot) as [Hbal HbS]. pose proof (cf_sec CF) as Hsec.
+    unfold recv_header in H.
+    destruct (matched s =? 0) eqn:Em.
+    + apply Z.eqb_eq in Em.
+      assert (downloading s = false) as Hnd.
+      { destruct (downloading s) eqn:X; [|reflexivity]. destruct (I1 eq_refl) as (_ & X2 & _). lia. }
+      destruct (I3 Hst eq_refl Hnd) as (J1 & J2 & J3 & J4 & J5). specialize (J5 Em).
+      specialize (S1 eq_refl Em).
+      destruct (scan (rhdr s) b 0) as [[rh m] off] eqn:Esc.
+      apply scan_spec in Esc. destruct Esc as (Q1 & Q2 & Q3). rewrite Z.sub_0_r in Q2. rewrite S1 in Q2.
+      destruct (m =? 1) eqn:Em1.
+      * rewrite J5 in H.
+        destruct (parse_header FIXED map_ heap (rev rh) 0) as [e dl] eqn:Ep. destruct dl.
+        -- cbn [downloading] in H.
+           set (s0 := mkst (started s) (halted s) (fl s) (fails s) (awo s) rh 1 (len rh) e 0 true (buf s) (bufnull s) (got s)) in *.
+           destruct (recv_body FIXED map_ userbin verify s0 (drop off b)) as [s4 ob] eqn:Eb.
+           assert (s1 = s4) as -> by congruence.
+           destruct (parse_header_true _ _ _ Ep) as (l & Hl & Hel).
+           pose proof (limit_lt _ Hl) as Hl2.
+           assert (DInv B s0) as HD0.
+           { unfold DInv, accepted, s0. cbn [downloaded expected awo buf fl got]. rewrite J1, J2, J3. rewrite Z.sub_diag.
+             change (len (@nil Z)) with 0. cbn [rev concat app]. rewrite fread_zero.
+             repeat split; auto; try lia. constructor. intros _. rewrite HB. exact Hbal. }
+           assert (bytes_ok (drop off b)) as Hbd by (apply bytes_ok_drop; auto).
+           pose proof (recv_body_spec _ _ _ _ Eb Hh HD0 ltac:(unfold s0; cbn [downloaded expected]; lia) Hbd ltac:(unfold s0; cbn [expected]; lia))
+             as (K1 & K2 & K3 & K4 & K5 & _).
+           unfold s0 in K1, K2, K3, K4, K5; cbn [started rhdr matched expected downloading] in K1, K2, K3, K4, K5.
+           split; [intros _ X; lia|]. intros _ Hc.
+           pose proof (recv_body_accepted _ _ _ _ Eb HD0 ltac:(unfold s0; cbn [downloaded expected]; lia) Hbd Hc Hh) as [A1 A2].
+           exists (drop off b). rewrite K2, K4. split.
+           ++ rewrite Q2, <- app_assoc, take_drop. reflexivity.
+           ++ split; [|exact A2]. rewrite A1. unfold accepted at 1, s0 at 1. cbn [got]. rewrite J3. cbn [rev concat app].
+              unfold s0. cbn [expected downloaded]. f_equal. lia.
+        -- cbn [downloading] in H.
+           match type of H with (?a, _) = _ => assert (s1 = a) as -> by congruence end.
+           unfold SR. cbn [halted matched downloading]. split; [intros _ X; lia|intros; discriminate].
+      * cbn [downloading] in H. rewrite Hnd in H.
+        match type of H with (?a, _) = _ => assert (s1 = a) as -> by congruence end.
+        unfold SR. cbn [halted matched downloading rhdr]. split; [|intros; discriminate].
+        intros _ X. rewrite Q2, (Q3 X). rewrite Z.add_0_l. rewrite take_all by lia. reflexivity.
+    + apply Z.eqb_neq in Em. destruct (downloading s) eqn:Hd.
+      * destruct (recv_body FIXED map_ userbin verify s (drop 0 b)) as [s4 ob] eqn:Eb.
+        assert (s1 = s4) as -> by congruence. rewrite drop_0 in Eb.
+        destruct (I1 eq_refl) as (_ & Hm1 & l & Hl & Hel & Hp).
+        destruct (I4 Hst eq_refl eq_refl) as [HD Hlt].
+        pose proof (limit_lt _ Hl) as Hl2.
+        pose proof (recv_body_spec _ _ _ _ Eb Hh HD Hlt Hb ltac:(lia)) as (K1 & K2 & K3 & K4 & K5 & _).
+        split; [intros _ X; lia|]. intros _ Hc.
+        pose proof (recv_body_accepted _ _ _ _ Eb HD Hlt Hb Hc Hh) as [A1 A2].
+        destruct (S2 eq_refl (or_introl eq_refl)) as (body & -> & Ha & Hla).
+        exists (body ++ b). rewrite K2, K4, <- app_assoc. split; [reflexivity|]. split; [|exact A2].
+        rewrite A1, Ha.
+        assert (len body = downloaded s) as Hlb.
+        { rewrite Ha in Hla. rewrite len_take in Hla by lia. lia. }
+        rewrite (take_all (expected s) body) by lia.
+        rewrite take_app_ge by lia. f_equal. f_equal. lia.
+      * assert (s1 = s) as -> by congruence. split; [intros _ X; lia|intros; congruence].
+Qed.
+
+Lemma flash_write_started s s' o ok : flash_write s = (s', o, ok) -> started s' = started s.
+Proof.
+  unfold flash_write. destruct (attempts _ _ _ _ _) as [[[f' fs'] oo] okk]. destruct okk; intros X;
+    match type of X with (?a, _, _) = _ => assert (s' = a) as -> by congruence end; reflexivity.
+Qed.
+Lemma dl_loop_started : forall n s l s' o ok, dl_loop n s l = (s', o, ok) -> started s' = started s.
+Proof.
+  induction n as [|n IHn]; intros s l s' o ok; cbn [dl_loop].
+  - intros X; congruence.
+  - destruct l as [|z l]; [intros X; congruence|].
+    destruct (len (buf (push s (take (Z.min (len (z :: l)) (SEC_SIZE - len (buf s))) (z :: l)))) =? SEC_SIZE).
+    + destruct (flash_write _) as [[sw ow] okw] eqn:Ew. apply flash_write_started in Ew. cbn [push started] in Ew.
+      destruct okw; [|intros X; congruence].
+      destruct (dl_loop n _ _) as [[s3 o3] ok3] eqn:E3. apply IHn in E3. cbn [add_downloaded started] in E3. intros X; congruence.
+    + intros X. apply IHn in X. cbn [add_downloaded push started] in X. exact X.
+Qed.
+Lemma download_started fx s l s' o ok : download fx s l = (s', o, ok) -> started s' = started s.
+Proof.
+  unfold download. destruct (dl_loop _ _ _) as [[sl ol] okl] eqn:El. apply dl_loop_started in El. cbn [started] in El.
+  destruct okl; [|intros X; congruence].
+  destruct (_ && _); [|intros X; congruence].
+  destruct (flash_write sl) as [[sw ow] okw] eqn:Ew. apply flash_write_started in Ew. intros X; congruence.
+Qed.
+Lemma verify_started s s' o : verify_and_reboot map_ userbin verify s = (s', o) -> started s' = started s.
+Proof.
+  unfold verify_and_reboot. destruct (footer_ok _); [destruct (bufnull _)|]; unfold reboot.
+  - intros X. assert (s' = halt s) as -> by congruence. reflexivity.
+  - destruct (verify _ _); intros X; assert (s' = halt s) as -> by congruence; reflexivity.
+  - intros X. assert (s' = halt s) as -> by congruence. reflexivity.
+Qed.
+Lemma recv_started s b s' o : recv FIXED map_ userbin heap verify s b = (s', o) -> started s' = started s.
+Proof.
+  unfold recv. destruct ((len b =? 0) || (65535 <? len b)); [intros X; congruence|].
+  destruct (recv_header FIXED map_ heap s b) as [[sh oh] off] eqn:Eh.
+  assert (started sh = started s) as Hsh.
+  { revert Eh. unfold recv_header. destruct (matched s =? 0); [|intros X; congruence].
+    destruct (scan _ _ _) as [[rh m] o']. destruct (m =? 1); [destruct (parse_header _ _ _ _ _) as [e dl]|]; intros X;
+      match type of X with (?a, _, _) = _ => assert (sh = a) as -> by congruence end; reflexivity. }
+  destruct (downloading sh); [|intros X; congruence].
+  destruct (recv_body _ _ _ _ _ _) as [s4 o4] eqn:Eb. intros X. assert (s' = s4) as -> by congruence.
+  revert Eb. unfold recv_body. destruct (download FIXED sh _) as [[sd od] okd] eqn:Ed. apply download_started in Ed.
+  destruct (downloaded (reset_hlen sd) =? expected (reset_hlen sd)).
+  - destruct (verify_and_reboot _ _ _ _) as [s5 o5] eqn:Ev. apply verify_started in Ev. cbn [reset_hlen started] in Ev.
+    intros Y. assert (s4 = s5) as -> by congruence. congruence.
+  - intros Y. assert (s4 = reset_hlen sd) as -> by congruence. cbn [reset_hlen started]. congruence.
+Qed.
+
+Lemma segs_run_SR : forall segs s c s' outs,
+  run_from FIXED map_ userbin heap verify s (map Seg segs) = (s', outs) ->
+  Inv s -> started s = true -> SR s c -> Forall bytes_ok segs ->
+  SR s' (c ++ stream_of segs).
+Proof.
+  induction segs as [|b t IH]; intros s c s' outs H HI Hst HS Hb; cbn [map run_from] in H.
+  - assert (s' = s) as -> by congruence. unfold stream_of. cbn. rewrite app_nil_r. auto.
+  - destruct (step FIXED map_ userbin heap verify s (Seg b)) as [s1 o1] eqn:Es.
+    destruct (run_from FIXED map_ userbin heap verify s1 (map Seg t)) as [s2 o2] eqn:Er.
+    assert (s' = s2) as -> by congruence.
+    inversion Hb as [|? ? Hb1 Hb2]; subst.
+    pose proof (seg_step_SR _ _ _ _ _ Es HI Hst HS Hb1) as HS1.
+    assert (Inv s1 /\ started s1 = true) as [HI1 Hst1].
+    { destruct (halted s) eqn:Hh.
+      - unfold step in Es. rewrite Hh in Es. assert (s1 = s) as -> by congruence. auto.
+      - pose proof (step_spec _ _ _ _ Es HI Hh Hb1) as (XI & _). split; [auto|].
+        unfold step in Es. rewrite Hh, Hst in Es. apply recv_started in Es. congruence. }
+    specialize (IH _ _ _ _ Er HI1 Hst1 HS1 Hb2).
+    unfold stream_of in *. cbn [map concat]. rewrite app_assoc. exact IH.
+Qed.
+
+Lemma run_segs_not_started : forall segs s, started s = false ->
+  run_from FIXED map_ userbin heap verify s (map Seg segs) = (s, []).
+Proof.
+  induction segs as [|b t IH]; intros s Hs; cbn [map run_from]; [reflexivity|].
+  unfold step. destruct (halted s); rewrite ?Hs; rewrite IH by auto; reflexivity.
+Qed.
+
+Theorem C18_image_is_stream_prefix_thm : forall f fs segs s' outs,
+  Forall bytes_ok segs ->
+  run_from FIXED map_ userbin heap verify (init f fs) (Start :: map Seg segs) = (s', outs) ->
+  downloading s' = true -> (halted s' = false \/ downloaded s' = expected s') ->
+  exists body, stream_of segs = rev (rhdr s') ++ body /\ accepted s' = take (expected s') body.
+Proof.
+  intros f fs segs s' outs Hb H Hd Hc. cbn [run_from] in H.
+  destruct (step FIXED map_ userbin heap verify (init f fs) Start) as [s0 o0] eqn:Es.
+  destruct (run_from FIXED map_ userbin heap verify s0 (map Seg segs)) as [s2 o2] eqn:Er.
+  assert (s' = s2) as -> by congruence.
+  pose proof (step_spec _ _ _ _ Es (Inv_init f fs) eq_refl I) as (HI0 & _).
+  unfold step in Es. cbn [init halted started] in Es. unfold start in Es.
+  destruct (slot_base map_ userbin) as [b|] eqn:Esl.
+  - assert (s0 = mkst true false f fs b [] 0 0 0 0 false [] false []) as -> by (cbn [init fl fails] in Es; congruence).
+    assert (SR (mkst true false f fs b [] 0 0 0 0 false [] false []) []) as HS0.
+    { unfold SR. cbn. split; [reflexivity|intros; discriminate]. }
+    pose proof (segs_run_SR _ _ _ _ _ Er HI0 eq_refl HS0 Hb) as (_ & S2).
+    destruct (S2 Hd Hc) as (body & E1 & E2 & _). exists body. split; [exact E1|exact E2].
+  - assert (s0 = init f fs) as -> by congruence.
+    rewrite run_segs_not_started in Er by reflexivity. assert (s2 = init f fs) as -> by congruence.
+    cbn in Hd. discriminate.
+Qed.
+
 End Fixed.
 
 Lemma footer_ok_magic ft : footer_ok ft = true ->
